@@ -122,7 +122,7 @@ pub fn c02_skrifa(data: &[u8]) {
     run(
         "C02",
         "skrifa-havoc",
-        || serde_json::to_value(c02::SkCase { m: MutCase { font: hex_font(font), table: "FILE".into(), edits: vec![] }, other: other.name.clone(), args: args.clone() }).unwrap(),
+        || serde_json::to_value(c02::SkCase { m: MutCase { font: hex_font(font), table: "FILE".into(), edits: vec![] }, other: other.name.clone(), args: args.clone(), prep: None, fpgm: None, sibling_maxp: None }).unwrap(),
         || {
             skdrive::drive_file(font, Some(&other.data), &args);
             Ok(())
